@@ -39,7 +39,8 @@ def build_scenarios(wd, proto, n, t, kinds, seed, limit=None, scheds=1, cross=Fa
             # that rotate with the seed
             groups = {}
             for c in sorted(fl, key=lambda c: json.dumps(c, sort_keys=True)):
-                groups.setdefault((c["round"], c["b"], _field_name(cat, c), c["alt"]), []).append(c)
+                # (in the two-party protocols the two roles send different messages: one case per role)
+                groups.setdefault((c["round"], c["b"], _field_name(cat, c), c["alt"], c["byz"] if n == 2 else ""), []).append(c)
             fl = []
             for k in sorted(groups, key=str):
                 g = groups[k]
